@@ -29,8 +29,9 @@ def judge_batched(ctx, module, cfg, events, by_id, batch=1000, max_rejects=5, ti
     """ctx.judge re-judges the whole file after every rejection; judging in batches keeps a run with
     violations fast.  Stops examining after max_rejects rejections in total."""
     traces = vlib.split_traces(events)
+    before = len(ctx.violations) + len(ctx.known_seen)
     for i in range(0, len(traces), batch):
-        left = max_rejects - len(ctx.violations) - len(ctx.known_seen)
+        left = max_rejects - (len(ctx.violations) + len(ctx.known_seen) - before)
         if left <= 0:
             ctx.log("judge: %d rejections, not examining further traces" % max_rejects)
             break
@@ -47,14 +48,14 @@ def part_scan(ctx, rnd):
     ctx.extra["scan_scenarios_emitted"] = len(scns)
     if not scns:
         raise vlib.InfraError("scan: no scenario emitted")
-    cap = 30000 if ctx.thorough else 4000
+    cap = 12000 if ctx.thorough else 2500
     if len(scns) > cap:
         scns.sort(key=lambda s: s["id"])
         rnd.shuffle(scns)
         scns = scns[:cap]
     # random populations beyond the model's bounds (up to 200 collections, heavy ties, page sizes
     # below and above the tie multiplicity, server-side page cap with pageSize 0)
-    nrand = 1500 if ctx.thorough else 250
+    nrand = 1500 if ctx.thorough else 200
     base = 10 ** 7
     for i in range(nrand):
         n = rnd.choice([0, 1, 2, 3, 5, 8, 13, 30, 60, 120, 200]) if i % 3 else rnd.randint(0, 200)
@@ -109,10 +110,10 @@ def part_framing(ctx, rnd):
     ctx.extra["framing_scenarios_emitted"] = len(scns)
     if not scns:
         raise vlib.InfraError("framing: no scenario emitted")
-    if ctx.thorough and len(scns) > 40000:
+    if ctx.thorough and len(scns) > 12000:
         scns.sort(key=lambda s: s["id"])
         rnd.shuffle(scns)
-        scns = scns[:40000]
+        scns = scns[:12000]
     # beyond the model's bounds: long responses, every kind of cut position
     base = 2 * 10 ** 7
     nrand = 3000 if ctx.thorough else 400
@@ -143,12 +144,14 @@ def part_framing(ctx, rnd):
         s["eof"] = "unexpected" if (s["id"] + ctx.seed) % 4 == 0 else "clean"
     by_id = {s["id"]: s for s in scns}
     events = []
+    per_reader = []
     for pkg, hd, test in (("sdk/go/arvados", "harness/C06_arvados", "TestVerifC06Index$"),
                           ("sdk/go/keepclient", "harness/C06_keepclient", "TestVerifC06GetIndex$"),
                           ("services/keepstore", "harness/C06_keepstore", "TestVerifC06IndexWriter$")):
         ov = ctx.harness_overlay(pkg, hd)
         ev, out = ctx.go_run_driver(pkg, ov, test, scns, timeout=1500)
         events += ev
+        per_reader.append(ev)
     traces = vlib.split_traces(events)
     nontrivial = set()
     whole_rejected = 0
@@ -171,10 +174,88 @@ def part_framing(ctx, rnd):
     if whole_rejected:
         ctx.drift.append("framing: %d complete index responses were not accepted, first: %s"
                          % (whole_rejected, json.dumps(first_wr)[:600]))
-    judge_batched(ctx, "IndexFramingTrace", "Judge_IndexFraming.cfg", events, by_id, batch=20000)
+    for ev in per_reader:
+        judge_batched(ctx, "IndexFramingTrace", "Judge_IndexFraming.cfg", ev, by_id, batch=20000, max_rejects=3)
     ctx.evaluations += len(traces)
     ctx.extra["framing_traces"] = len(traces)
     ctx.samples += [{"scenario": by_id.get(t[0].get("scn")), "trace": t} for t in traces[5:6] + traces[-1:]]
+    return nontrivial
+
+
+def part_sweep(ctx, rnd):
+    pkg = "services/keep-balance"
+    ctx.tlc(SD, "Sweep", "MC_Sweep_big.cfg" if ctx.thorough else "MC_Sweep.cfg", timeout=1700,
+            label="sweep: all interleavings of index fetches / collection producer / consumer x one failing "
+                  "request; refinement, no commit after a failure, Run always returns")
+    scns, r = ctx.gen(SD, "Sweep", "Gen_Sweep_big.cfg" if ctx.thorough else "Gen_Sweep.cfg", timeout=1700,
+                      label="sweep: scenario emission (configuration x failing request)")
+    ctx.extra["sweep_scenarios_emitted"] = len(scns)
+    if not scns:
+        raise vlib.InfraError("sweep: no scenario emitted")
+    variants = ["s500", "conn", "trunc", "trunc2"]
+    for s in scns:
+        s["fvar"] = variants[(s["id"] + ctx.seed) % 4]
+        s["lim"] = 2
+        s["bufs"] = [1, 0, 2, 1000][(s["id"] // 4 + ctx.seed) % 4]
+    # beyond the model's bounds: more servers and pages, ties (more page requests), any page size
+    base = 3 * 10 ** 7
+    nrand = 1500 if ctx.thorough else 300
+    for i in range(nrand):
+        S = rnd.randint(1, 6)
+        pages = rnd.randint(0, 6)
+        m2 = rnd.random() < 0.4
+        kinds = [("none", 0), ("services", 0), ("user", 0), ("collnull", 0), ("discovery", 0),
+                 ("collcount", rnd.randint(1, 2)), ("mounts", rnd.randint(1, S)),
+                 ("index", rnd.randint(1, S + (1 if m2 else 0))), ("index", rnd.randint(1, S + (1 if m2 else 0))),
+                 ("collpage", rnd.randint(1, pages + 2)), ("collpage", rnd.randint(1, pages + 2)),
+                 ("clear", rnd.randint(1, S)), ("pull", rnd.randint(1, S)), ("trash", rnd.randint(1, S))]
+        fk, ft = rnd.choice(kinds)
+        trash = rnd.random() < 0.8
+        scns.append({"id": base + i, "S": S, "m2": m2, "pages": pages, "lim": rnd.randint(1, 3),
+                     "ties": rnd.random() < 0.5, "pulls": rnd.random() < 0.8, "trash": trash,
+                     "clear": trash and rnd.random() < 0.5, "fk": fk, "ft": ft, "fvar": rnd.choice(variants),
+                     "bufs": rnd.choice([0, 1, 2, 1000])})
+    by_id = {s["id"]: s for s in scns}
+    ov = ctx.harness_overlay(pkg, "harness/C06_keepbalance")
+    events, out = ctx.go_run_driver(pkg, ov, "TestVerifC06Sweep$", scns, timeout=1500)
+    traces = vlib.split_traces(events)
+    nontrivial = set()
+    n_ok_after_fail = n_put_after_fail = n_unexpected = n_unreached = 0
+    for t in traces:
+        scn = by_id.get(t[0].get("scn")) or {}
+        failed_at = [i for i, e in enumerate(t) if e.get("failed")]
+        done = [e for e in t if e["ev"] == "done"]
+        ok = bool(done and done[0]["ok"])
+        if failed_at and ok:
+            n_ok_after_fail += 1
+        if failed_at and any(e["ev"] == "put" and e["n"] > 0 for e in t[failed_at[0] + 1:]) \
+                and t[failed_at[0]]["ev"] == "req":
+            n_put_after_fail += 1
+        if "expect_ok" in scn and scn["expect_ok"] != ok:
+            n_unexpected += 1
+        if scn.get("fk", "none") != "none" and not failed_at and "expect_ok" in scn:
+            n_unreached += 1
+            if os.environ.get("VERIF_DEBUG"):
+                print("UNREACHED", scn, [e for e in t if e["ev"] in ("done",)])
+        if failed_at:
+            e = t[failed_at[0]]
+            nontrivial.add((t[0]["S"], t[0]["m2"], t[0]["pages"], t[0]["pulls"], t[0]["trash"], t[0]["clear"],
+                            e.get("kind", e.get("phase")), e["tgt"], t[0]["fvar"]))
+    if n_ok_after_fail:
+        ctx.drift.append("sweep: Run returned nil although a request failed in %d runs" % n_ok_after_fail)
+    if n_put_after_fail:
+        ctx.drift.append("sweep: a non-empty trash/pull list was sent after a failed request in %d runs "
+                         "(a violation only if the request was an index or a collection page)" % n_put_after_fail)
+    if n_unexpected:
+        ctx.drift.append("sweep: %d runs ended differently from the model's prediction" % n_unexpected)
+    if n_unreached:
+        ctx.drift.append("sweep: in %d runs the request to fail was never made" % n_unreached)
+    if n_unreached > len(traces) // 2:
+        raise vlib.InfraError("sweep: more than half of the failure positions were not reached")
+    judge_batched(ctx, "SweepTrace", "Judge_Sweep.cfg", events, by_id, batch=2000)
+    ctx.evaluations += len(traces)
+    ctx.extra["sweep_traces"] = len(traces)
+    ctx.samples += [{"scenario": by_id.get(t[0].get("scn")), "trace": t[:40]} for t in traces[300:301] + traces[-1:]]
     return nontrivial
 
 
@@ -185,16 +266,28 @@ def run(ctx):
         nontrivial += len(part_scan(ctx, rnd))
     if "framing" in PARTS:
         nontrivial += len(part_framing(ctx, rnd))
+    if "sweep" in PARTS:
+        nontrivial += len(part_sweep(ctx, rnd))
     ctx.extra["distinct_nontrivial"] = nontrivial
     ctx.rule = ("scan: all paths of CollectionScan.tla within the Gen bounds (initial table x page size x environment "
                 "actions at every page boundary) plus seeded random populations of 0-200 collections; non-trivial = at "
                 "least three page requests or an environment action; distinct by (population size, page size, filter "
-                "operators per page, environment actions, result)")
+                "operators per page, environment actions, result). framing: every (index shape, cut point) and "
+                "(volumes, failure point) of IndexFraming.tla plus random long responses; non-trivial = a proper "
+                "non-empty prefix / a failing volume; distinct by (reader, shape, cut) or (volumes, failure, route). "
+                "sweep: every (cluster configuration, failing request) of Sweep.tla plus random larger clusters; "
+                "non-trivial = a request was made to fail; distinct by (configuration, failing request, failure kind). "
+                "distinct_nontrivial is the sum of the three counts")
     ctx.trusted_base = ["fake collections list API (its answers are themselves checked by TLC against the contract's "
                         "definition of a faithful list API)",
-                        "rank <-> timestamp/uuid concretisation tables in the drivers"]
+                        "rank <-> timestamp/uuid concretisation tables in the drivers",
+                        "fake API / keepstore transports of the sweep driver and their request classification",
+                        "byte-string builders for index responses; scripted failing volume and the ENOTDIR trick "
+                        "for Directory volumes"]
     ctx.assumptions = ["the list API is atomic per request and orders equal keys by (modified_at, uuid) as requested",
-                       "modified_at only moves forward to a non-decreasing database clock (as the statement says)"]
+                       "modified_at only moves forward to a non-decreasing database clock (as the statement says)",
+                       "a failed request = HTTP 500, transport error or body cut short; one failing request per sweep",
+                       "sweep contract strict only for index and collection-page failures (the statement's words)"]
 
 
 if __name__ == "__main__":
